@@ -163,6 +163,9 @@ func Worker(prop, engine, tier string, verifSeed uint64, from, step, total int, 
 			budget = 0
 		}
 		seenClass[v.Class]++
+		if v.NoShrink {
+			budget = 0
+		}
 		rf := Minimise(e, prop, tier, t.Used(), seed, v, budget, 60*time.Second)
 		rf.VerifSeed = verifSeed
 		rf.RunIndex = i
